@@ -1,118 +1,88 @@
 (* C11 -- Bidirectional sync converges and never silently loses a version.
-   The full statement is false of the faithful model (C11_refuted_same_size, known
-   finding C11-KF1); what is proved is the statement outside that class. *)
+   The model follows the repaired code (`fix: bisync compares the bytes of equally long files ...`, `fix: bisync records the
+   synchronised state of both sides after every run`).  On the pinned commit equally long files were taken for identical
+   and the state database described versions that never were the common one (recorded as fixed in known_findings.json).
+
+   [rows_ok w p]: when the prior state at p has a row for both sides, a side that is not modified with respect to its row
+   still holds the recorded common version (no condition on prior states with no row or a row for one side only).  [C12_history_invariant] shows that every
+   history of edits and syncs keeps it. *)
 From Coq Require Import NArith ZArith List Bool Lia.
 From SyModel Require Import Bisync.
 From SyProofs Require Import Bisync_proofs.
 Import ListNotations.
 
-Definition conflict_names_outside (U : list N) : Prop :=
-  forall p q sd, In p U -> In q U -> cname sd q <> p.
+(* After a bidirectional sync that is not refused, for every strategy and every such prior state, both roots hold the same
+   file with the same content at every path of the universe (or the path is absent on both sides; rename conflicts leave the
+   two versions under their conflict names, which the next sync copies across), and the database rows are those of the two
+   sides' current files *)
+Theorem C11_sync_converges : forall U st maxdel t w w' p,
+  NoDup U -> conflict_names_outside U -> In p U -> good t w p -> bisync U st maxdel (t + 1) w = Some w' ->
+  in_sync w' p /\ rows_fresh w' p.
+Proof. intros U st maxdel t w w' p Hnd Hc Hp Hg Hb. destruct (bisync_keeps_good U st maxdel t w w' p Hnd Hc Hp Hg Hb) as (_ & A & B). split; assumption. Qed.
+Print Assumptions C11_sync_converges.
 
-Lemma others_dont_touch U st w p q :
-  conflict_names_outside U -> In p U -> (q = p \/ q = cname Source p \/ q = cname Dest p) ->
-  forall p' a', In p' U -> p' <> p -> action_of st w p' = Some a' -> ~ touches a' p' p /\ ~ touches a' p' q.
-Proof.
-  intros Hout Hp Hq p' a' Hp' Hne _. split.
-  - intros [E|[_ [E|E]]]; [congruence | apply (Hout p p' Source Hp Hp'); congruence | apply (Hout p p' Dest Hp Hp'); congruence].
-  - intros [E|[_ [E|E]]]; destruct Hq as [-> | [-> | ->]]; try congruence;
-      try (apply (Hout p' p Source Hp' Hp); congruence); try (apply (Hout p' p Dest Hp' Hp); congruence);
-      try (apply (Hout p p' Source Hp Hp'); congruence); try (apply (Hout p p' Dest Hp Hp'); congruence);
-      try (apply cname_inj in E; destruct E; congruence).
-Qed.
+(* Every version present before the run still exists afterwards -- as the path's content or as a conflict copy -- unless it
+   was the previously synchronised version superseded by a one-sided change (unmodified with respect to its row), or the path
+   was a conflict and the selected (non-rename) strategy chose the other side, or -- a prior state with a row for the other
+   side only, which says the path was synchronised -- the other side has deleted the file since.
+   [rows_ok] admits every prior state: no rows, both rows, or a row for one side only. *)
+Theorem C11_source_version_accounted : forall st now w p s,
+  rows_ok w p -> w_src w p = Some s ->
+  let w' := path_sync st now w p in
+  w_src w' p = Some s \/ w_src w' (cname Source p) = Some s \/
+  (exists rs, w_dbs w p = Some rs /\ is_modified s rs = false) \/
+  (exists c, classify (w_src w p) (w_dst w p) (w_dbs w p) (w_dbd w p) = Some c /\ is_conflict c = true /\ st <> RenameBoth) \/
+  (w_dbs w p = None /\ (exists rd, w_dbd w p = Some rd) /\ w_dst w p = None).
+Proof. exact source_version_accounted. Qed.
+Print Assumptions C11_source_version_accounted.
 
-(* Full-strength statement (kept visible): for every pair of sides and every strategy the sides agree after the sync.
-   It is refuted by the model: *)
-Theorem C11_refuted_same_size :
-  exists U st w w', bisync U st 0 1000 w = Some w' /\ (forall p, In p U -> no_rows w p) /\ converged U w' = false.
-Proof.
-  exists [4%N], Newer,
-    (mk_world (fun p => if N.eqb p 4 then Some (mk_fent 3 10 111) else None)
-              (fun p => if N.eqb p 4 then Some (mk_fent 3 20 222) else None) (fun _ => None) (fun _ => None)).
-  eexists. split; [vm_compute; reflexivity|]. split; [intros p _; split; reflexivity | vm_compute; reflexivity].
-Qed.
-Print Assumptions C11_refuted_same_size.
+Theorem C11_dest_version_accounted : forall st now w p d,
+  rows_ok w p -> w_dst w p = Some d ->
+  let w' := path_sync st now w p in
+  w_dst w' p = Some d \/ w_dst w' (cname Dest p) = Some d \/
+  (exists rd, w_dbd w p = Some rd /\ is_modified d rd = false) \/
+  (exists c, classify (w_src w p) (w_dst w p) (w_dbs w p) (w_dbd w p) = Some c /\ is_conflict c = true /\ st <> RenameBoth) \/
+  (w_dbd w p = None /\ (exists rs, w_dbs w p = Some rs) /\ w_src w p = None).
+Proof. exact dest_version_accounted. Qed.
+Print Assumptions C11_dest_version_accounted.
 
-(* Outside the known class (no path present on both sides with equal size and different content),
-   the first sync of any two trees under any of the six strategies leaves the sides equal on every path
-   of the universe (a renamed conflict leaves the path absent on both sides, its two versions under the conflict names). *)
-Theorem C11_first_sync_converges : forall U st now w w',
-  NoDup U -> conflict_names_outside U ->
-  (forall p, In p U -> no_rows w p /\ sizes_tell w p) ->
-  bisync U st 0 now w = Some w' ->
-  forall p, In p U -> same_content (w_src w' p) (w_dst w' p) = true.
-Proof.
-  intros U st now w w' Hnd Hout Hhyp Hb p Hp. unfold bisync in Hb. cbn [limit_exceeded N.eqb] in Hb. inversion Hb; subst w'. clear Hb.
-  pose proof (fold_at st now w U w p Hnd Hp) as Hat.
-  assert (Hat' : at_ (fold_left (sync_step st now w) U w) p = at_ (sync_step st now w w p) p).
-  { apply Hat. intros p' a' Hp' Hne Ea. eapply (others_dont_touch U st w p p Hout Hp (or_introl eq_refl)); eassumption. }
-  unfold at_ in Hat'. inversion Hat' as [[E1 E2 E3 E4]]. rewrite E1, E2.
-  destruct (Hhyp p Hp) as [Hn Hs]. apply first_sync_path; assumption.
-Qed.
-Print Assumptions C11_first_sync_converges.
+(* prior states with a row for one side only are covered: [rows_ok] holds of them outright *)
+Example ex_partial_rows_ok : forall w p r, w_dbs w p = Some r -> w_dbd w p = None -> rows_ok w p.
+Proof. intros w p r A B. unfold rows_ok. rewrite A, B. exact I. Qed.
 
-(* Every version present before the first sync is present afterwards -- at its path, or under a conflict name --
-   unless the path was a conflict (both sides present, different sizes) settled by a strategy other than rename,
-   which names the loser explicitly. *)
-Theorem C11_first_sync_no_silent_loss : forall U st now w w' p c,
-  NoDup U -> conflict_names_outside U -> In p U -> p <> 0%N -> no_rows w p ->
-  bisync U st 0 now w = Some w' -> holds w c p ->
-  holds w' c p \/ holds w' c (cname Source p) \/ holds w' c (cname Dest p) \/
-  (exists s d, w_src w p = Some s /\ w_dst w p = Some d /\ f_size s <> f_size d /\ st <> RenameBoth).
-Proof.
-  intros U st now w w' p c Hnd Hout Hp Hp0 Hn Hb Hh. unfold bisync in Hb. cbn [limit_exceeded N.eqb] in Hb. inversion Hb; subst w'. clear Hb.
-  assert (Hq : forall q, (q = p \/ q = cname Source p \/ q = cname Dest p) ->
-               at_ (fold_left (sync_step st now w) U w) q = at_ (sync_step st now w w p) q).
-  { intros q Hq. apply (fold_at2 st now w U w p q Hnd Hp). intros p' a' Hp' Hne Ea. eapply others_dont_touch; eassumption. }
-  pose proof (first_sync_no_loss st now w p c Hp0 Hn Hh) as Hl. cbv zeta in Hl.
-  assert (Hholds : forall q, (q = p \/ q = cname Source p \/ q = cname Dest p) ->
-                   holds (sync_step st now w w p) c q -> holds (fold_left (sync_step st now w) U w) c q).
-  { intros q Hq' Hh'. specialize (Hq q Hq'). unfold at_ in Hq. inversion Hq as [[E1 E2 E3 E4]]. unfold holds. rewrite E1, E2. exact Hh'. }
-  destruct Hl as [Hl|[Hl|[Hl|Hl]]].
-  - left. apply Hholds; [left; reflexivity | exact Hl].
-  - right. left. apply Hholds; [right; left; reflexivity | exact Hl].
-  - right. right. left. apply Hholds; [right; right; reflexivity | exact Hl].
-  - right. right. right. exact Hl.
-Qed.
-Print Assumptions C11_first_sync_no_silent_loss.
+(* a first sync of two arbitrary trees -- any sizes, contents and time stamps, equal ones included -- starts from a good state *)
+Theorem C11_first_sync_is_covered : forall t w p, w_dbs w p = None -> w_dbd w p = None ->
+  (forall f, w_src w p = Some f -> (f_mtime f <= t)%Z) -> (forall f, w_dst w p = Some f -> (f_mtime f <= t)%Z) -> good t w p.
+Proof. exact rowless_good. Qed.
+Print Assumptions C11_first_sync_is_covered.
 
-(* the six strategies, on a genuine conflict, drop only the side they name *)
-Theorem C11_strategy_loser_explicit : forall s d,
-  f_size s <> f_size d ->
-  resolve_conflict PreferSource (Some s) (Some d) = CopyToDest /\
-  resolve_conflict PreferDest (Some s) (Some d) = CopyToSource /\
-  resolve_conflict RenameBoth (Some s) (Some d) = RenameConflict /\
-  (resolve_conflict Larger (Some s) (Some d) = if N.ltb (f_size d) (f_size s) then CopyToDest else CopyToSource) /\
-  (resolve_conflict Smaller (Some s) (Some d) = if N.ltb (f_size s) (f_size d) then CopyToDest else CopyToSource) /\
-  (resolve_conflict Newer (Some s) (Some d) =
-     if Z.ltb (f_mtime d) (f_mtime s) then CopyToDest else if Z.ltb (f_mtime s) (f_mtime d) then CopyToSource else RenameConflict).
-Proof.
-  intros s d Hne. repeat split; cbn.
-  - destruct (N.ltb (f_size d) (f_size s)); [reflexivity|]. destruct (N.eqb_spec (f_size s) (f_size d)); [contradiction | reflexivity].
-  - destruct (N.ltb (f_size s) (f_size d)); [reflexivity|]. destruct (N.eqb_spec (f_size s) (f_size d)); [contradiction | reflexivity].
-Qed.
-Print Assumptions C11_strategy_loser_explicit.
+(* the effect of a whole sync at a path of the universe is the per-path step used above *)
+Theorem C11_sync_is_per_path : forall U st maxdel now w w' p,
+  NoDup U -> conflict_names_outside U -> In p U -> bisync U st maxdel now w = Some w' ->
+  (w_src w' p, w_dst w' p, w_dbs w' p, w_dbd w' p) =
+  (w_src (path_sync st now w p) p, w_dst (path_sync st now w p) p, w_dbs (path_sync st now w p) p, w_dbd (path_sync st now w p) p).
+Proof. exact bisync_at. Qed.
+Print Assumptions C11_sync_is_per_path.
 
-(* ---- non-vacuity: two non-trivial trees meet the hypotheses; rename then one further sync converges ---- *)
+(* equal sizes with different contents, equal mtimes: a conflict, not "already in sync" *)
+Example ex_same_size_is_a_conflict :
+  classify (Some (mk_fent 5 10 1)) (Some (mk_fent 5 10 2)) None None = Some CreateCreateConflict.
+Proof. reflexivity. Qed.
+
 Definition wA : world :=
-  mk_world (fun p => if N.eqb p 4 then Some (mk_fent 3 10 111) else if N.eqb p 8 then Some (mk_fent 5 11 333) else None)
-           (fun p => if N.eqb p 4 then Some (mk_fent 7 20 222) else if N.eqb p 12 then Some (mk_fent 1 12 444) else None)
+  mk_world (fun p => if N.eqb p 4 then Some (mk_fent 3 1 7) else if N.eqb p 8 then Some (mk_fent 5 2 1) else None)
+           (fun p => if N.eqb p 8 then Some (mk_fent 5 2 2) else if N.eqb p 12 then Some (mk_fent 9 3 5) else None)
            (fun _ => None) (fun _ => None).
-Example ex_hyps : NoDup [4;8;12]%N /\ conflict_names_outside [4;8;12]%N /\ (forall p, In p [4;8;12]%N -> no_rows wA p /\ sizes_tell wA p).
-Proof.
-  split; [repeat constructor; cbn; intuition lia|]. split.
-  - intros p q sd Hp Hq. cbn in Hp, Hq. destruct sd; intuition (subst; vm_compute; discriminate).
-  - intros p Hp. split; [split; reflexivity|]. intros s d Es Ed Esz. cbn in Hp.
-    destruct Hp as [<-|[<-|[<-|[]]]]; vm_compute in Es, Ed; inversion Es; inversion Ed; subst; vm_compute in Esz; discriminate.
-Qed.
-Example ex_rename_then_converges :
-  let U2 := [4; 8; 12; cname Source 4; cname Dest 4]%N in
-  match bisync U2 RenameBoth 0 100 wA with
-  | Some w1 => converged U2 w1 = false /\
-               match bisync U2 RenameBoth 0 200 w1 with
-               | Some w2 => converged U2 w2 = true /\ actions_of U2 RenameBoth w2 = []
-               | None => False
-               end
-  | None => False
-  end.
+Example ex_first_sync : match bisync [4; 8; 12]%N RenameBoth 0 100 wA with
+  | Some w' => converged [4; 8; 12]%N w' = true /\ w_src w' 33%N = Some (mk_fent 5 2 1) /\ w_dst w' 34%N = Some (mk_fent 5 2 2)
+  | None => False end.
+Proof. vm_compute. repeat split. Qed.
+
+(* equal sizes, equal mtimes, different contents, under `newer`: a tie, both kept *)
+Example ex_equal_mtimes :
+  let w := mk_world (fun p => if N.eqb p 4 then Some (mk_fent 5 10 1) else None) (fun p => if N.eqb p 4 then Some (mk_fent 5 10 2) else None)
+                    (fun _ => None) (fun _ => None) in
+  match bisync [4]%N Newer 0 100 w with
+  | Some w' => w_src w' 17%N = Some (mk_fent 5 10 1) /\ w_dst w' 18%N = Some (mk_fent 5 10 2) /\ w_src w' 4%N = None /\ w_dst w' 4%N = None
+  | None => False end.
 Proof. vm_compute. repeat split. Qed.
